@@ -26,6 +26,7 @@ def plan(tier, seed):
             ("composite-1", 10, [("E5", {"with_typename": False, "kind": "notification", "dollar": True}), "E2", "E4", "E8", ("E6", {"both": True}), ("E6", {"both": True})]),
             ("composite-3", 6, [("E3", {"own": 0}), ("E5", {"kind": "notification", "with_typename": True, "params_last_new": True}), ("E3", {"own": 0}), ("E5", {"kind": "request", "with_typename": True, "params_last_new": True}), "E9", "E10"]),
             ("composite-4", 6, [("E8", {"mode": "optionality"}), ("E8", {"mode": "nullable"}), ("E8", {"mode": "literal"}), ("E8", {"mode": "optionality"}), "E11", "E11"]),
+            ("composite-5", 2, ["E12", ("E5", {"kind": "request", "with_typename": True, "enum_result": True})]),
             ("composite-2", 10, ["E1", "E2", "E2", ("E5", {"with_typename": True, "kind": "request"}), "E7", "E6", ("E5", {"with_typename": False, "kind": "request", "dollar": True}), ("E3", {"deep": True})]),
         ]
     else:
@@ -37,7 +38,9 @@ def plan(tier, seed):
                 forced.append(("E5", {"with_typename": False, "kind": "notification"}))
             if k % 4 == 2:
                 forced.append(("E5", {"with_typename": True, "kind": "request"}))
-            forced.append(["E1", "E2", "E3", "E4", "E6", "E7", "E8", ("E3", {"deep": True}), ("E5", {"with_typename": False, "dollar": True}), ("E6", {"both": True}), "E9", "E10", ("E3", {"own": 0}), "E11", ("E8", {"mode": "optionality"}), ("E8", {"mode": "nullable"})][k % 16])
+            forced.append(["E1", "E2", "E3", "E4", "E6", "E7", "E8", ("E3", {"deep": True}), ("E5", {"with_typename": False, "dollar": True}), ("E6", {"both": True}), "E9", "E10", ("E3", {"own": 0}), "E11", ("E8", {"mode": "optionality"}), ("E8", {"mode": "nullable"}), ("E5", {"kind": "request", "enum_result": True})][k % 17])
+            if k % 12 == 11:
+                forced = ["E12"]
             if k % 5 == 3:
                 forced += [("E3", {"own": 0}), ("E5", {"kind": "notification", "params_last_new": True})]
             out.append(("composite-%d" % k, [2, 4, 8, 12][k % 4], forced))
@@ -67,7 +70,7 @@ def one_model(job):
 
     rng = rng_for(seed, "C06", label)
     if n_ops == 0:
-        doc, info = committed, {"log": [], "touched": [], "new_structs": [], "new_enums": [], "new_methods": [], "ops": ["E0"]}
+        doc, info = committed, {"static_only": False, "log": [], "touched": [], "new_structs": [], "new_enums": [], "new_methods": [], "ops": ["E0"]}
     else:
         doc, info = ev.evolve(committed, rng, n_ops=n_ops, force=forced)
     res["log"] = info["log"]
@@ -127,7 +130,7 @@ def one_model(job):
             focus = set(info["touched"]) | set(info["new_structs"]) | set(info["new_methods"])
             rot = rng_for(seed, "C06-rot", label)
             focus |= set(rot.sample(sorted(mm.S), 12)) | set(rot.sample([x["method"] for x in doc["requests"]], 4))
-            for pid in DELEGATES:
+            for pid in (DELEGATES if not info.get("static_only") else ["C04", "C09"]):
                 d, err = run_delegate(pid, tier, mp, pkg, None if pid in ("C04", "C09") else focus, wd)
                 if d is None:
                     res["inconclusive"].append("delegated %s crashed on %s: %s" % (pid, label, err[-300:]))
